@@ -516,11 +516,11 @@ def model_cases(ctx):
     allpos = list(M.POSITION)
     for fam, e in boolean_families(ctx, big):
         n = L.leaves(e)
-        if fam == 'full-not' and n <= (4 if big else 3): out.append((fam, e, allpos))
+        if fam == 'full-not' and n <= (4 if big else 3): out.append((fam, e, allpos if n <= 3 else ['filter', 'elt', 'lambda']))
         elif fam == 'full' and n <= (5 if big else 4): out.append((fam, e, allpos))
         elif fam == 'andornot' and n <= (5 if big else 4):
             # the class of the round-trip theorem: every position up to 3 leaves, filter + lambda beyond (quick tier)
-            out.append((fam, e, allpos if (big or n <= 3) else ['filter', 'lambda']))
+            out.append((fam, e, allpos if n <= 3 else (['filter', 'lambda'] if n == 4 and not big else (allpos if n == 4 else ['filter']))))
         elif fam == 'isnone' and n <= (3 if big else 2): out.append((fam, e, allpos))
         elif fam == 'const' and n <= (3 if big else 2): out.append((fam, e, allpos))
     rng = random.Random(ctx.rng.random())
